@@ -543,6 +543,15 @@ func verifC03Direct(w *bufio.Writer, r *verifC03Rng) {
 			}
 			emit(fmt.Sprintf("primary-crc-value-all-%02x-%s", fill, tag), bundle(x, pay))
 		}
+		// a CRC item which is a proper prefix of the right value (every length, the empty one too)
+		for k := 0; k < n; k++ {
+			x = append(append([]byte{}, pay[:len(pay)-1-n]...), byte(0x40+k))
+			x = append(x, pay[len(pay)-n:len(pay)-n+k]...)
+			emit(fmt.Sprintf("canonical-item-prefix-%d-%s", k, tag), bundle(prim, x))
+			x = append(append([]byte{}, prim[:len(prim)-1-n]...), byte(0x40+k))
+			x = append(x, prim[len(prim)-n:len(prim)-n+k]...)
+			emit(fmt.Sprintf("primary-item-prefix-%d-%s", k, tag), bundle(x, pay))
+		}
 		// a break byte where the CRC item of the last block should start
 		x = append([]byte{}, pay...)
 		x[len(x)-1-n] = 0xff
